@@ -22,7 +22,14 @@ import (
 
 type rng struct{ s uint64 }
 
-func newRng(seed uint64) *rng { return &rng{s: seed*0x9E3779B97F4A7C15 + 0x1234567} }
+// newRng: the seed is mixed first, so that neighbouring seeds give unrelated streams (with the
+// plain splitmix increment, seed n+1 would be seed n shifted by one draw).
+func newRng(seed uint64) *rng {
+	z := seed + 0x632BE59BD9B4E019
+	z = (z ^ (z >> 30)) * 0xBF58476D1CE4E5B9
+	z = (z ^ (z >> 27)) * 0x94D049BB133111EB
+	return &rng{s: z ^ (z >> 31)}
+}
 func (r *rng) next() uint64 {
 	r.s += 0x9E3779B97F4A7C15
 	z := r.s
